@@ -212,13 +212,7 @@ def classify_stale_path(by_id, rv):
 
 def classify_rich_import(old_ents, new_ents):
     """rich format: the importer cannot take a change below a directory that the same commit renames
-    (`R a z` followed by `M z/child`: the new path is looked up in the basis inventory); nor two additions
-    below a directory that held no file before (the importer pruned it as empty and now creates it twice)"""
-    for f, e in old_ents.items():
-        if e[2] and f in new_ents and not any(o[0].startswith(e[0] + "/") and not o[2] for o in old_ents.values()):
-            added = [g for g, ge in new_ents.items() if g not in old_ents and ge[0].startswith(new_ents[f][0] + "/")]
-            if len(added) >= 2:
-                return {"rich-import-two-additions-below-a-directory-that-was-empty"}
+    (`R a z` followed by `M z/child`: the new path is looked up in the basis inventory)"""
     for f, e in new_ents.items():
         if e[2] and f in old_ents and old_ents[f][1] != e[1]:            # a directory renamed by its own name / parent
             prefix = e[0] + "/"
@@ -409,7 +403,10 @@ def roundtrip(sc, plain, out):
                 if len(rv["parents"]) > 1 and any(e[2] and f in o_ and o_[f][1] != e[1] for f, e in n_.items()):
                     # a merge revision that renames a directory relative to its first parent
                     fams.add("rich-import-directory-rename-in-a-merge-revision")
-            fam = sorted(fams)[0] if fams else None
+            # an ancestor whose commands already fall into a family leaves a wrong tree behind: what the
+            # importer does on top of it is attributed to that family (first such ancestor in export order)
+            inherited = [fams_by_rid[a] for a in order if a != rid and a in c40._anc(by_id, rid) and fams_by_rid.get(a)]
+            fam = sorted(inherited[0])[0] if inherited else (sorted(fams)[0] if fams else None)
         out["viol"].append((case, "fast-import of the exported %s stream raises %s at commit %s: %s" % (
             fmt, type(e).__name__, rid.decode() if rid else "?", " ".join(str(e).split())[:160]), fam))
         cnt["import-raises:%s:%s" % (fmt, fam)] += 1
@@ -538,7 +535,7 @@ def _plain(out):
 
 def run(ctx, nscen=None):
     t2 = []
-    keys = [((ctx.seed, i), ctx.tier) for i in range(nscen or ctx.pick(12, 80))]
+    keys = [((ctx.seed, i), ctx.tier) for i in range(nscen or ctx.pick(30, 120))]
     for o in ctx.pmap(run_scenario, keys, chunksize=1):
         if o.get("crash"):
             raise env.InfraError(o["crash"])
